@@ -62,10 +62,16 @@ def exercise(spec, rng=None, n_steps=0, want_dump=False, fixed_steps=None):
     start = 0
     for ph, cut in enumerate(cuts):
         net.instantiate(order[start:cut]); start = cut
-        tbl = net.live_graph()                      # from Wire.source / Wire.sinks, leaves numbered in allLeaves() order
+        tbl = net.port_graph()                      # from the leaves' InPort / OutPort objects, leaves numbered in allLeaves() order
+        wires_tbl = net.live_graph()                # from Wire.source / Wire.sinks (what the sorter is given)
         n = len(tbl); res['n'] = n
+        sinks_bad = None; res.setdefault('sinks_bad', None)
+        if [sorted(set(x)) for x in wires_tbl] != [sorted(set(x)) for x in tbl]:
+            sinks_bad = ('sinks', 'Wire.source / Wire.sinks do not record every (driver leaf, reader leaf) pair the ports of the leaves define',
+                         {'from_wires': wires_tbl, 'from_ports': tbl})
+            res['sinks_bad'] = res['sinks_bad'] or sinks_bad
         if net.has_struct:
-            tbl_spec = tbl          # structural library blocks (Xor2 = 8 leaves): the leaf graph is the live one
+            tbl_spec = tbl          # structural library blocks (Xor2 = 8 leaves, Add = 2): the leaf graph is the one the ports define
         else:
             # the netlist that was described, renumbered to the live leaf order (blocks inside a structural child are
             # listed at their parent's position by allLeaves())
@@ -77,7 +83,7 @@ def exercise(spec, rng=None, n_steps=0, want_dump=False, fixed_steps=None):
             else:
                 for a, row in enumerate(t0): tbl_spec[pos[a]] = [pos[b] for b in row]
                 if [sorted(set(x)) for x in tbl] != [sorted(set(x)) for x in tbl_spec]:
-                    res['problems'].append(('sinks', 'Wire.source / Wire.sinks of the live netlist do not match the netlist that was built', {'live': tbl, 'built': tbl_spec}))
+                    res['problems'].append(('tie', 'the ports of the live leaves do not match the netlist that was built (harness)', {'live': tbl, 'built': tbl_spec}))
                 if not net.has_box and pos != list(range(n)):
                     res['problems'].append(('tie', 'HWSystem.allLeaves() is not the instantiation order', {'allLeaves': pos}))
         truth, detail = N.classify(tbl_spec); res['truth'] = truth
@@ -133,8 +139,12 @@ def exercise(spec, rng=None, n_steps=0, want_dump=False, fixed_steps=None):
             ncl = rng.choice([0, 1, 1, 2])
         res['steps'].append([pokes, ncl])
         for k, v in pokes: net.wire[('i', k)].put(v)
+        q_exp = expected_q(spec, net, present) if ncl == 1 else {}
         with quiet(): net.sim.clk(ncl)
         bad = compare_values(spec, net, present)
+        for k, v in q_exp.items():
+            if not bad and net.wire[('q', k)].get() != v:
+                bad = {'wire': ['q', k], 'impl': net.wire[('q', k)].get(), 'spec': v, 'note': 'register output after one clock edge = its d input settled before the edge'}
         if dp:
             steps.append(([(dp.w(net.wire[('i', k)]), v) for k, v in pokes], ncl)); rows.append(dp.values())
         if bad:
@@ -143,6 +153,16 @@ def exercise(spec, rng=None, n_steps=0, want_dump=False, fixed_steps=None):
             return res
     if dp: res['dump'] = (dp, steps, start_vals, rows, not spec.get('split'))
     return res
+
+
+def expected_q(spec, net, present):
+    """what each instantiated Reg (no enable / reset) must show after ONE clock edge: its d input, settled on the current inputs"""
+    base = net.values(); exp = N.denote(spec, set(present), base); out = {}
+    for it in net.done:
+        if it[0] == 'r':
+            rg = spec['regs'][it[1]]; d = tuple(rg['d'])
+            out[it[1]] = N.mask(exp[d] if d in exp else base[d], rg['w'])
+    return out
 
 
 def compare_values(spec, net, present):
@@ -219,6 +239,9 @@ class Sweep:
         for tbl, impl in r['sort_cases']:
             ctx.count(('sort', tuple(map(tuple, tbl)), impl[0]), nontrivial=len(tbl) > 1)
         if r['dump']: ctx.count(('values', label), n=len(r['dump'][3]) + 1)
+        if r.get('sinks_bad') and not [p for p in r['problems'] if p[0] != 'tie']:
+            kind, text, detail = r['sinks_bad']
+            self.tie_broken = self.tie_broken or {'what': text, 'detail': detail, 'netlist': spec, 'case': label}
         for kind, text, detail in r['problems']:
             if kind == 'tie':
                 self.tie_broken = self.tie_broken or {'what': text, 'detail': detail, 'netlist': spec}
@@ -286,7 +309,7 @@ def random_sweep(ctx, sw, count, tagseed, with_dump=True, steps=4):
         boxes = rng.choice([0, 0, 1, 2])         # blocks inside user-defined structural children
         n = rng.randint(2, 6 if struct else 12)
         spec = N.rand_netlist(rng, n, flavour, n_in=rng.randint(1, 3), n_regs=rng.choice([0, 0, 1, 2]), lib_only=(i % 4 != 3), struct=struct,
-                              itf=itf, boxes=boxes)
+                              itf=itf, boxes=boxes, inherit=(i % 2 == 1))
         if spec is None: continue
         if flavour == 'dag' and i % 5 in (0, 1) and len(spec['order']) > 2:
             # build - simulate - extend - simulate histories (one or two extensions, also inside existing structural children)
@@ -344,7 +367,7 @@ def search(ctx, n):
         rng = random.Random(ctx.seed * 104729 + i)
         flavour = ('dag', 'dag', 'cycle')[i % 3]
         spec = N.rand_netlist(rng, rng.randint(2, 16), flavour, n_in=rng.randint(1, 3), n_regs=rng.choice([0, 1, 2]), lib_only=False, struct=(i % 2 == 0),
-                              itf=(i % 3 != 0), boxes=rng.choice([0, 1, 2]))
+                              itf=(i % 3 != 0), boxes=rng.choice([0, 1, 2]), inherit=(i % 2 == 1))
         if spec is None: continue
         if flavour == 'dag' and i % 4 < 2 and len(spec['order']) > 2: spec['split'] = sorted(set(rng.randint(1, len(spec['order']) - 1) for _ in range(1 + i % 2)))
         sw.add('search#%d/%s' % (i, flavour), spec, rng, n_steps=4)
